@@ -338,8 +338,18 @@ func genConfig(rt *rapid.T) *cfgSpec {
 	for i := 0; i < nvh; i++ {
 		c.VHosts = append(c.VHosts, vhSpec{Name: fmt.Sprintf("vh%d", i)})
 	}
+	// the first nvh domains go to distinct virtual hosts so that most of them are reachable - in a generated order, so
+	// that a virtual host that is left without any domain (fewer domains than virtual hosts) can stand anywhere in the list
+	order := make([]int, nvh)
+	for i := range order {
+		order[i] = i
+	}
+	order = rapid.Permutation(order).Draw(rt, "vhOrder")
 	for i, d := range doms {
-		vi := i // the first nvh domains go to distinct virtual hosts so that most of them are reachable
+		vi := 0
+		if i < nvh {
+			vi = order[i]
+		}
 		if i >= nvh {
 			vi = rapid.IntRange(0, nvh-1).Draw(rt, "dom->vh")
 		}
@@ -896,6 +906,12 @@ func routeCase(rt *rapid.T, c *cfgSpec, q *reqSpec) {
 	}
 	if h, _ := splitHP(q.Host); h != strings.ToLower(h) {
 		classes = append(classes, "host-mixed-case")
+	}
+	for k, vh := range c.VHosts {
+		if len(vh.Domains) == 0 && k < mvh {
+			classes = append(classes, "selected-vhost-listed-after-a-vhost-without-domains")
+			break
+		}
 	}
 	ev.Case(partModel, nontrivial, canon, func() interface{} {
 		return map[string]interface{}{"config": c, "request": q, "model": want.String()}
